@@ -20,6 +20,11 @@
 (***************************************************************************)
 EXTENDS Values
 
+\* Named deviations of the pinned implementation from the reference semantics (known findings, see
+\* /verif/known_findings.json).  Dev = {} is the reference; conformance runs enable the listed ones.
+\*   (none at present: the read-only vivification findings of C08 were repaired by fix: commits)
+CONSTANT Dev
+
 \* ---------------------------------------------------------------- expressions
 ESelf          == [op |-> "SELF"]
 EEmpty         == [op |-> "EMPTY"]
@@ -95,20 +100,26 @@ SplatNode(acc, c) ==
   LET v == ValOf(acc.doc, c) IN
   CASE v.k = "map" -> Emit(acc, [i \in 1..Len(v.m) |-> Child(c, v, PK(v.m[i][1]))])
     [] v.k = "seq" -> Emit(acc, [i \in 1..Len(v.e) |-> Child(c, v, PI(i - 1))])
-    [] v.k = "null" -> IF c.in THEN [acc EXCEPT !.doc = Replace(acc.doc, c.p, SeqV(<<>>))] ELSE Fail(acc, "unspec")  \* ADOPTED: null becomes [] even read-only
+    [] v.k = "null" -> IF acc.ro THEN acc                                              \* reading never edits
+                       ELSE IF c.in THEN [acc EXCEPT !.doc = Replace(acc.doc, c.p, SeqV(<<>>))] ELSE Fail(acc, "unspec")  \* writable: null becomes []
     [] OTHER -> acc
 
 \* `.[i, j, ...]` on one node; idxs is a sequence of scalar Values
 IndexNode(acc, c, idxs) ==
   LET v0 == ValOf(acc.doc, c) IN
   IF idxs = <<>> THEN SplatNode(acc, c)
-  ELSE IF v0.k = "null" THEN Fail(acc, "unspec")                          \* null turns into [] / {} (vivification through an index)
+  ELSE IF v0.k = "null" THEN
+       (IF acc.ro THEN acc                                                \* read-only: a null has no entries
+        ELSE IF ~c.in THEN Fail(acc, "unspec")
+        ELSE Fail(acc, "unspec"))                                         \* writable: null becomes [] / {} and is then indexed (assignment paths: Assign rules)
   ELSE IF v0.k = "seq" THEN
     FoldLeft(LAMBDA a, ix :
         IF ~Ok(a) THEN a
         ELSE IF ~(ix.k = "num" /\ ix.int) THEN (IF ix.k = "str" THEN Fail(a, "err") ELSE Fail(a, "unspec"))
         ELSE LET v == ValOf(a.doc, c)  n == Len(v.e)  i == ix.n IN
-             IF i >= n THEN Fail(a, "unspec")                             \* pads with nulls (even read-only: C08 finding)
+             IF i >= n THEN (IF a.ro THEN a                                \* read-only: past the end, no entry
+                             ELSE IF ~c.in THEN Fail(a, "unspec")
+                             ELSE Emit([a EXCEPT !.doc = Replace(a.doc, c.p, SeqV(v.e \o [x \in 1..(i + 1 - n) |-> Null]))], <<InDoc(Append(c.p, PI(i)))>>))  \* writable: padded with nulls
              ELSE IF i < 0 - n THEN Fail(a, "err")
              ELSE Emit(a, <<Child(c, v, PI(IF i < 0 THEN n + i ELSE i))>>),
       acc, idxs)
@@ -260,7 +271,7 @@ AsEnv(s, r) == [r EXCEPT !.env = s.env]
 RECURSIVE ReturnsInput(_)
 ReturnsInput(e) == CASE e.op = "SELF" -> TRUE
                      [] e.op \in {"PIPE", "SHORT_PIPE"} -> e.l.op # "ASSIGN_VARIABLE" /\ ReturnsInput(e.l) /\ ReturnsInput(e.r)
-                     [] e.op \in {"ASSIGN", "ADD_ASSIGN", "SUBTRACT_ASSIGN", "MULTIPLY_ASSIGN", "FLATTEN_BY", "MAP_VALUES", "DELETE_CHILD", "WITH"} -> TRUE
+                     [] e.op \in {"ASSIGN", "ADD_ASSIGN", "SUBTRACT_ASSIGN", "MULTIPLY_ASSIGN", "MAP_VALUES", "DELETE_CHILD", "WITH"} -> TRUE
                      [] OTHER -> FALSE
 \* `a , b` where both operands return the same list object: the pinned code emits it once (C01 finding union-same-list)
 UnionOpen(l, r) == (ReturnsInput(l) /\ ReturnsInput(r)) \/ (l.op = "GET_VARIABLE" /\ r.op = "GET_VARIABLE" /\ l.name = r.name)
@@ -544,11 +555,8 @@ Ev(e, s) ==
                     THEN Emit([acc EXCEPT !.doc = ks.doc], <<Det(SeqV([g \in DOMAIN firsts |-> SeqV([x \in DOMAIN SelectSeq(Upto(Len(v.e)), LAMBDA i : firstIdx(i) = firsts[g]) |-> vNow.e[SelectSeq(Upto(Len(v.e)), LAMBDA i : firstIdx(i) = firsts[g])[x]]])]))>>)
                     ELSE Emit([acc EXCEPT !.doc = ks.doc], <<Det(SeqV([g \in DOMAIN firsts |-> vNow.e[firsts[g]]]))>>))
     [] e.op = "FLATTEN_BY" ->
-         \* the reference result is a fresh value; the pinned code flattens its input in place (C08 finding) and
-         \* returns the same node, so on document nodes the outcome is left open here and judged by C08
          IF \E i \in DOMAIN s.ctx : ValOf(s.doc, s.ctx[i]).k # "seq" THEN Fail(s, "err")
-         ELSE IF \E i \in DOMAIN s.ctx : s.ctx[i].in /\ FlattenV(ValOf(s.doc, s.ctx[i]), e.depth) # ValOf(s.doc, s.ctx[i]) THEN Fail(s, "unspec")
-         ELSE [s EXCEPT !.ctx = [i \in DOMAIN s.ctx |-> IF s.ctx[i].in THEN s.ctx[i] ELSE Det(FlattenV(s.ctx[i].v, e.depth))]]
+         ELSE [s EXCEPT !.ctx = [i \in DOMAIN s.ctx |-> Det(FlattenV(ValOf(s.doc, s.ctx[i]), e.depth))]]
     [] e.op \in {"ANY", "ALL"} ->
          IF \E i \in DOMAIN s.ctx : ValOf(s.doc, s.ctx[i]).k # "seq" THEN Fail(s, "err")
          ELSE [s EXCEPT !.ctx = [i \in DOMAIN s.ctx |-> LET v == ValOf(s.doc, s.ctx[i]) IN
